@@ -197,7 +197,7 @@ NEEDED = ["T=1", "T=2", "T=3", "T:4..20", "T:20..1e3", "T:1e3..1e5", "T:1e5..2^2
           "r1=0,r2<0", "r1=0,r2>0", "r1=r2=0,r3<0", "r1=r2=0,r3>0", "r1=r2=r3=0",
           "peak strictly inside the move", "peak rate at +-(2^31-1)", "rate sign differs at the ends",
           "accum=clear", "accum=given", "total==kM", "total==kM-1",
-          "ambient:dps", "ambient:prec", "ambient:workdps"] + \
+          "ambient:dps", "ambient:prec", "ambient:workdps", "ambient:decimal"] + \
          ["jerk%%6=%d,%s" % (r, s) for r in range(6) for s in ("neg", "pos")]
 
 
